@@ -35,12 +35,24 @@ type c10Fault struct {
 	Kind string `json:"kind"`
 }
 
-var c10KeyKinds = []string{world.FaultError, world.FaultCtxDeadline, world.FaultNilRecord, world.FaultNoCert, world.FaultNoKey, world.FaultEmptyCert, world.FaultGarbageCert, world.FaultZeroKey}
+var c10KeyKinds = []string{world.FaultError, world.FaultCtxDeadline, world.FaultNilRecord, world.FaultNoCert, world.FaultNoKey, world.FaultEmptyCert, world.FaultGarbageCert, world.FaultZeroKey, world.FaultMismatch}
 var c10ErrKinds = []string{world.FaultError, world.FaultCtxDeadline, world.FaultCtxCanceled}
 
 // soft kinds are not in the statement's list of failures (the answer is well-typed but useless): only the
 // no-panic / no-Success-assertion clauses apply to them.
-var c10Soft = map[string]bool{world.FaultGarbageCert: true, world.FaultZeroKey: true}
+var c10Soft = map[string]bool{world.FaultGarbageCert: true, world.FaultZeroKey: true, world.FaultMismatch: true}
+
+// c10SigningCall: the GetResponseSigningKey occurrence whose answer is used to sign the reply of a scenario kind
+// (0 = none). Unusable key material handed out by THAT call is a signing failure, i.e. a hard failure.
+func c10SigningCall(kind string) int {
+	switch kind {
+	case "callback", "callback-unusable-alg":
+		return 1
+	case "attrquery":
+		return 2 // the first call only feeds the IdP metadata used for the destination check
+	}
+	return 0
+}
 
 func c10Kinds(op string) []string {
 	switch op {
@@ -216,6 +228,9 @@ func c10Run(sc c10Scenario, plan []c10Fault) c10Obs {
 		if !c10Soft[f[strings.Index(f, "=")+1:]] {
 			hard = true
 		}
+		if n := c10SigningCall(sc.Kind); n > 0 && strings.HasPrefix(f, fmt.Sprintf("GetResponseSigningKey#%d=", n)) {
+			hard = true // unusable key material for the signing step = signing failure
+		}
 	}
 	all := obs.AllText(rep, m)
 	leak := false
@@ -275,7 +290,7 @@ func runC10(ctx Ctx) int {
 	world.PinClock()
 	run := ev.NewRun("C10")
 	run.Level = "fault_enumeration"
-	run.Rule = "for each of the endpoint scenarios (SSO x4, callback x {POST, Redirect} x {done, pending, unknown id} + unusable configured algorithms, logout, attribute query x2, metadata with signing off/on/unusable algorithm, certificate, ready, healthz) the fault-free run records the ordered storage call trace; every call occurrence x every applicable fault kind (returned error, context deadline / cancellation error; for the key getters: nil record, key without certificate, certificate without key, empty certificate, garbage certificate, zero key) is injected singly, and for every run that continues past the fault every later call occurrence is faulted too (all pairs; thorough: triples); traces are re-recorded on every run. A case is distinct by (scenario, fault plan)"
+	run.Rule = "for each of the endpoint scenarios (SSO x4, callback x {POST, Redirect} x {done, pending, unknown id} + unusable configured algorithms, logout, attribute query x2, metadata with signing off/on/unusable algorithm, certificate, ready, healthz) the fault-free run records the ordered storage call trace; every call occurrence x every applicable fault kind (returned error, context deadline / cancellation error; for the key getters: nil record, key without certificate, certificate without key, empty certificate, garbage certificate, zero key, certificate of another key) is injected singly, and for every run that continues past the fault every later call occurrence is faulted too (all pairs; thorough: triples); traces are re-recorded on every run. A case is distinct by (scenario, fault plan)"
 	run.Assume = []string{"garbage certificate bytes and a zero rsa.PrivateKey are outside the statement's list of failures: for them only the no-panic and no-usable-Success clauses are applied", "faults are injected at the storage interface only"}
 	scs := c10Scenarios()
 	byName := map[string]c10Scenario{}
